@@ -130,8 +130,12 @@ def run(repo, rep):
               'setting name sets differ: _default_config %s, python_to_sdocs %s' % (sorted(default_keys), sorted(settings)), nontrivial=True)
     n += 1
 
+    # explicit arguments are distinct integers, once below and once above every built-in default (so that clamping one
+    # setting by another - or by a default - shows)
+    scale = {'base': 10}
+
     def given(name):
-        return Const('<given:%s>' % name)
+        return Const(scale['base'] + 1 + sorted(set(settings) | {'stream', 'style'}).index(name))
 
     def scenarios():
         yield 'all-omitted', set()
@@ -160,7 +164,7 @@ def run(repo, rep):
             v = bound.get(s_)
             if s_ in gv:
                 want = given(s_)
-                ok = isinstance(v, Const) and v.v == want.v
+                ok = isinstance(v, Const) and v.v == want.v and type(v.v) is type(want.v)
                 why = 'the explicit argument'
             else:
                 d = table.get(Const(s_)) if table is not None else None
@@ -181,7 +185,9 @@ def run(repo, rep):
         f = m.funcs.get(ename)
         if f is None:
             raise AnalysisError('entry point %s vanished' % ename)
-        for label, gv in scenarios():
+        for base_, (label, gv) in [(b_, sc_) for b_ in (10, 100000) for sc_ in scenarios()]:
+            scale['base'] = base_
+            label = '%s@%d' % (label, base_)
             rec = Recorder(repo)
             kw = {s_: given(s_) for s_ in gv}
             stream = None
@@ -256,6 +262,8 @@ def run(repo, rep):
             except Undecided as e:
                 rep.undecided('C18.a', '%s[no-stream]' % ename, f.where, str(e))
     rep.floor('C18.a', n, 150)
+    nb = check_merge(repo, rep, 'C18.b')
+    rep.floor('C18.b:explicit-none', nb, SETTINGS_MIN)
 
     # ---------------------------------------------------------------- C18.c set_default_config / get_default_config, then entry points see it
     n0 = n
@@ -264,11 +272,16 @@ def run(repo, rep):
     if sdc is None or gdc is None:
         raise AnalysisError('set_default_config / get_default_config vanished')
     sparams = [p for p in sdc.params if p != 'style']
-    for label, gv in [('none', set())] + [('only-' + p, {p}) for p in sparams] + [('all', set(sparams))]:
+    for base_, (label, gv) in [(b_, sc_) for b_ in (20, 200000)
+                               for sc_ in [('none', set())] + [('only-' + p, {p}) for p in sparams] + [('all', set(sparams))]]:
+        label = '%s@%d' % (label, base_)
+
+        def newval(p_):
+            return base_ + 1 + sorted(sparams).index(p_)
         rec = Recorder(repo)
         before = default_table(rec)
         before_items = {k.v: v for k, v in before.items} if before is not None else {}
-        kw = {p: Const('<new:%s>' % p) for p in gv}
+        kw = {p: Const(newval(p)) for p in gv}
         try:
             prs = rec.it.explore(sdc, [], kw)
         except Undecided as e:
@@ -283,13 +296,13 @@ def run(repo, rep):
             continue
         after_items = {k.v: v for k, v in after.items}
         for key in sorted(set(before_items) | set(after_items)):
-            want = ('<new:%s>' % key) if key in gv else None
+            want = newval(key) if key in gv else None
             got = after_items.get(key)
             if want is not None:
-                ok = isinstance(got, Const) and got.v == want
+                ok = isinstance(got, Const) and got.v == want and type(got.v) is int
             else:
                 b = before_items.get(key)
-                ok = got is b or (isinstance(got, Const) and isinstance(b, Const) and got.v == b.v)
+                ok = got is b or (isinstance(got, Const) and isinstance(b, Const) and got.v == b.v and type(got.v) is type(b.v))
             n += 1
             rep.check(ok, 'C18.c', 'set_default_config:stores:%s' % key if key in gv else 'set_default_config:keeps:%s[%s]' % (key, label), sdc.where,
                       'exactly the given settings change',
@@ -386,9 +399,9 @@ def run(repo, rep):
             _, a, k = calls[0]
             bound = dict(zip(pts.params, a))
             bound.update(k)
-            ok = prov(bound.get(pts.params[0])) == 'OBJ' and isinstance(bound.get('width'), Const) and bound['width'].v == '<given:width>'
+            ok = prov(bound.get(pts.params[0])) == 'OBJ' and isinstance(bound.get('width'), Const) and bound['width'].v == given('width').v
             if meth == 'pformat':
-                ok = ok and isinstance(bound.get('sort_dict_keys'), Const) and bound['sort_dict_keys'].v == '<given:sort_dict_keys>'
+                ok = ok and isinstance(bound.get('sort_dict_keys'), Const) and bound['sort_dict_keys'].v == given('sort_dict_keys').v
             detail = 'pipeline gets value=%s width=%s sort_dict_keys=%s' % (prov(bound.get(pts.params[0])) if pts.params[0] in bound else None,
                                                                           prov(bound.get('width')) if 'width' in bound else None,
                                                                           prov(bound.get('sort_dict_keys')) if 'sort_dict_keys' in bound else None)
